@@ -238,6 +238,10 @@ partial def loop (h : IO.FS.Stream) (st : St) : IO Unit := do
     | _, _ =>
       IO.println s!"REJECT {st.id} 0 bad outcome value {v}"
       loop h { st with dead := true }
+  | ["dupuid", u] =>
+    if st.dead then loop h st else
+    IO.println s!"REJECT {st.id} proviso: uid {u} was handed to the servlet tree twice — the distinct-uid hypothesis of C02_tree / C02_node_ensemble does not hold on this run"
+    loop h { st with dead := true }
   | "node" :: path :: toks =>
     if st.dead then loop h st else
     match openNode toks with
